@@ -1,5 +1,6 @@
 import CalVerif.Lemmas.OvbaLoops
 import CalVerif.Lemmas.OvbaDir
+import CalVerif.Lemmas.OvbaFuel
 /-! # C18 — VBA modules are extracted byte-exact from the compressed project
 
     Theorems about `Ovba.decompress` (model of `src/cfb.rs decompress_stream`, after the D16 fix) against the
@@ -209,6 +210,10 @@ def sample : List Chunk :=
 example : Valid sample := by decide
 example : decompress (container sample) = .ok (expand sample) := decompress_correct sample (by decide)
 example : (serialize sample).length = 30 := by decide
+
+/-- The model never runs out of loop budget: on **every** byte string `decompress` returns bytes, returns `Err`, or
+    panics (termination of the three nested loops of `decompress_stream`; a C06 obligation). -/
+theorem decompress_never_out_of_fuel (s : Bytes) : decompress s ≠ .outOfFuel := decompress_fuel s
 
 /-! ## ledger D16: the loop before the fix -/
 
